@@ -136,7 +136,7 @@ func runGenerated(seed int64, n, blocks int, opsPath, obsPath, statsPath string)
 		}
 		// observation of the genesis state
 		r.emitObs("G", ResOK, e.Observe(), sdk.Events{}, nil, "")
-		nb := blocks/2 + g.pick(blocks)
+		nb := blocks/2 + g.pick(blocks+1)
 		halted := false
 		for b := 0; b < nb && !halted; b++ {
 			t := g.nextTime()
@@ -144,7 +144,7 @@ func runGenerated(seed int64, n, blocks int, opsPath, obsPath, statsPath string)
 			if _, halted = r.exec([]string{"B", t.String()}); halted {
 				break
 			}
-			ntx := g.pick(7)
+			ntx := g.pick(12)
 			for k := 0; k < ntx; k++ {
 				toks := append([]string{"T"}, g.genTx()...)
 				r.exec(toks)
